@@ -32,6 +32,8 @@ structure St where
   cfg : Option (ArrCfg Elem) := none
   st : KV := []
   abs : AArr Elem := fun _ => []     -- the abstract array of C01 (specification oracle)
+  es : Nat := 0                      -- element size in bytes (0 = variable length)
+  chain : String := ""               -- textual description of the codec chain
 
 def parseCfg (l : Line) : Option (ArrCfg Elem) := do
   let shape ← l.nl "shape"
@@ -88,7 +90,8 @@ def handleCore (st : St) (l : Line) : Option (St × List String) := do
     -- a configuration the implementation rejected is skipped as a whole
     if l.outcome.startsWith "err-open" then pure ({ cfg := none, st := [] }, ["any"]) else
     let cfg ← parseCfg l
-    pure ({ cfg := some cfg, st := [], abs := fun _ => cfg.fill }, ["ok"])
+    pure ({ cfg := some cfg, st := [], abs := fun _ => cfg.fill,
+            es := ((l.get "es").bind (·.toNat?)).getD 0, chain := (l.get "chain").getD "" }, ["ok"])
   else
     match st.cfg with
     | none => pure (st, ["skip"])
